@@ -335,6 +335,11 @@ class ItCoarse(StageContract):
         for i in block_instances(tier):
             out.append(dict(i, nlevels=1, mssdc_jac=False))
             out.append(dict(i, nlevels=2))
+            # the coarsest level is neither level 0 nor level 1 only from three levels on
+            if i['n'] <= 2:
+                out.append(dict(i, nlevels=3, nsweeps=[1, 2, 1]))
+        out.append(dict(n=2, d=0, nlevels=4, nsweeps=[1, 2, 1, 1]))
+        out.append(dict(n=2, d=1, nlevels=5, nsweeps=[1, 1, 2, 3, 1]))
         return out
 
     def build(self, inst, mk):
